@@ -20,6 +20,7 @@ def dispatch (req : Sexp) : Sexp :=
   | some "path" => handlePath req
   | some "sig" => handleSig req
   | some "consumer" => handleConsumer req
+  | some "extsel" => handleExtSel req
   | some "place" => handlePlace req
   | some "cli" => handleCli req
   | some "misc" => handleMisc req
